@@ -254,7 +254,7 @@ for name, inst, tags, tier in [
     ("scope_try_with_mut_bigerr_down1", "same, down", ["fits"], "quick"),
     ("scope_try_with_mut_bigerr_spill_up4", "same, MIN_ALIGN 4, slot spills into chunk 2", ["b1"], "thorough"),
     ("scope_try_with_payload_offset_up2", "try_alloc_try_with, MIN_ALIGN 2, Result<[u8;2],u8>: payload size a multiple of MIN_ALIGN, payload offset inside the Result slot not", ["fits"], "quick"),
-    ("scope_try_with_mut_payload_offset_down2", "try_alloc_try_with_mut, same, down", ["fits"], "quick"),
+    ("scope_try_with_mut_payload_offset_down2", "try_alloc_try_with_mut, same, down", ["fits"], "thorough"),
     ("scope_try_with_mut_payload_offset_up8", "try_alloc_try_with_mut, MIN_ALIGN 8, Result<[u32;2],u32> (payload offset 4)", ["fits"], "thorough"),
     ("scope_try_with_payload_offset_down8", "try_alloc_try_with, MIN_ALIGN 8, down, Result<[u32;2],u32>", ["fits"], "thorough"),
 ]:
@@ -500,7 +500,7 @@ for name, inst, tier in [
     ("mutvec_dyn_unallocated_down1", "same, down", "quick"),
     ("mutvecrev_dyn_unallocated_up1", "MutBumpVecRev, same, up", "thorough"),
     ("mutvecrev_dyn_unallocated_down1", "MutBumpVecRev, same, down", "thorough"),
-    ("mutvecrev_dyn_bump_unallocated_up1", "MutBumpVecRev over `&mut dyn MutBumpAllocatorCoreScope` whose concrete type is `&mut Bump` (not BumpScope), unallocated arena, up", "quick"),
+    ("mutvecrev_dyn_bump_unallocated_up1", "MutBumpVecRev over `&mut dyn MutBumpAllocatorCoreScope` whose concrete type is `&mut Bump` (not BumpScope), unallocated arena, up", "thorough"),
     ("mutvecrev_dyn_bump_unallocated_down1", "same, down", "thorough"),
     ("mutvec_dyn_bump_unallocated_down1", "MutBumpVec, concrete type `&mut Bump`, down", "thorough"),
     ("mutvec_map_in_place_up1", "MutBumpVec<[u8;3]> (2 elements) after a symbolic filler <= 5 B, map_in_place -> [u8;2], into_slice, up", "thorough"),
@@ -577,7 +577,7 @@ for name, inst, tier in [
 for name, inst, tier in [
     ("cstr_into_mut_up1", "MutBumpString (capacity 5) holding ANY text of <= 4 ASCII bytes (NULs anywhere), try_into_cstr, up", "quick"),
     ("cstr_into_mut_down1", "same, down", "thorough"),
-    ("cstr_from_str_up1", "try_alloc_cstr_from_str(ANY text of <= 4 ASCII bytes), up", "quick"),
+    ("cstr_from_str_up1", "try_alloc_cstr_from_str(ANY text of <= 4 ASCII bytes), up", "thorough"),
     ("cstr_from_str_down1", "same, down", "thorough"),
 ]:
     A("cstr", name, ["C09"], inst, tier=tier, mem_gb=8, timeout_s=1800, bounds="text <= 4 ASCII bytes incl. NUL at any position; no growth (capacity reserved); 1 chunk; unwind 7")
